@@ -274,14 +274,18 @@ def preset_family(ctx):
              # the tls parameter wherever it stands in the query, next to others, with a hello name in the path
              ({"url": "smtp://127.0.0.1:{port}?x=y&tls=required"}, "required"), ({"url": "smtp://127.0.0.1:{port}?tls=required&x=y"}, "required"),
              ({"url": "smtp://user:pw@127.0.0.1:{port}/client.example?a=1&b=2&tls=opportunistic"}, "opportunistic"), ({"url": "smtp://127.0.0.1:{port}/?foo&tls=required"}, "required"),
+             # the scheme decides: smtps is implicit TLS whatever a tls parameter says
+             ({"url": "smtps://user:pw@127.0.0.1:{port}?tls=opportunistic"}, "wrapper"), ({"url": "smtps://127.0.0.1:{port}?tls=required"}, "wrapper"),
+             ({"url": "smtps://user:pw@127.0.0.1:{port}?x=y&tls=opportunistic"}, "wrapper"),
              # and without any timeout configured
              ({"url": "smtps://user:pw@127.0.0.1:{port}", "no_timeout": True}, "wrapper"), ({"url": "smtp://user:pw@127.0.0.1:{port}?tls=required", "no_timeout": True}, "required"),
              ({"url": "smtp://127.0.0.1:{port}?tls=opportunistic", "no_timeout": True}, "opportunistic"), ({"preset": "relay", "no_timeout": True}, "wrapper")]
     scs, meta = [], []
     for spec, mode in modes:
-        for offer in (True, False):
+        # (the keyword in the spellings servers use: extension keywords are case-insensitive, RFC 5321 2.4)
+        for offer in (b"STARTTLS", b"StartTLS", b"Starttls", b"starttls", False):
             for fl in ("sync", "tokio"):
-                caps = b"250-srv\r\n" + (b"250-STARTTLS\r\n" if offer else b"") + b"250 AUTH PLAIN\r\n"
+                caps = b"250-srv\r\n" + (b"250-" + offer + b"\r\n" if offer else b"") + b"250 AUTH PLAIN\r\n"
                 script = [step("none", b"220 hi\r\n"), step("line", caps), step("line", b"220 go ahead\r\n" if offer else b"250 ok\r\n")] + [step("line", b"250 ok\r\n")] * 2 + \
                          [step("line", b"354 go\r\n"), step("data", b"250 queued\r\n"), step("line", b"221 bye\r\n")]
                 op = dict(spec); op["op"] = "transport"
